@@ -25,6 +25,11 @@ const (
 	lvByFile = "counter f by name\nf[getfilename()]++\n"
 )
 
+// c19Waker never wakes anybody (a one-shot run does not poll).
+type c19Waker struct{}
+
+func (c19Waker) Wake() <-chan struct{} { return nil }
+
 func c19Bytes(tag string, maxn int) []byte {
 	n := nondetRange(tag+".len", 0, maxn)
 	b := make([]byte, n)
@@ -91,7 +96,13 @@ func HarnessC19OneShot() {
 		vAssert(false, "L.setup")
 		return
 	}
-	t, err := tailer.New(ctx, &wg, lines, tailer.OneShot, tailer.LogPatterns([]string{root + "/*.log"}))
+	// (patterns and wakers as cmd/mtail passes them: one pattern per -logs
+	// flag, both wakers always set)
+	pats := []string{root + "/*.log"}
+	if nondetRange("patterns", 0, 1) == 1 {
+		pats = []string{root + "/a.log", root + "/b.log"}
+	}
+	t, err := tailer.New(ctx, &wg, lines, tailer.OneShot, tailer.LogPatterns(pats), tailer.LogPatternPollWaker(c19Waker{}), tailer.LogstreamPollWaker(c19Waker{}))
 	if err != nil || t == nil {
 		vAssert(false, "L.setup")
 		return
